@@ -100,6 +100,16 @@ def run(tier, v):
         base, nx, capped = ex.explore(sc, {"kill", "fail", "sig"}, 2 if tier == "thorough" else 1, oracle, opt=opt)
         v.subspace("%s: every op x {kill, fail(errno menu), SIGINT, SIGTERM}" % sc.name, nx, exhaustive=not capped,
                    ops_in_fault_free_run=len(base.trace))
+    # --- unusual temp-directory settings (a check run needs no temp directory at all)
+    ntf = 0
+    for sc in reps[:2]:
+        for form in ("nonexistent", "file", "relative", "trailing-slash", "non-utf8"):
+            x = fsx.execute((sc, [], dict(opt, tmp_form=form)))
+            ex._account(x)
+            sc2 = fsx.Scenario(sc.name + "+TMPDIR=" + form, sc.files, check=True, lock=sc.lock)
+            oracle(sc2, x, x)
+            ntf += 1
+    v.subspace("TMPDIR given as a nonexistent path / a file / a relative path / with a trailing slash / a non-UTF-8 name", ntf)
     # --- whatever the tree contains: every state a killed / failed / interrupted *edit* run can leave behind (temp files, a half-way
     #     lock file, partially updated trees), then --check on it under the monitor
     def oracle_post(sc, base, x):
